@@ -37,6 +37,24 @@ def parseTP? (ws : List String) : Option (TP Rat) :=
       else none
   | _ => none
 
+def parseForm? : String → Option Form
+  | "plain" => some .plain | "inside" => some .inside | "wrapped" => some .wrapped | _ => none
+def showUnit : UnitT → String
+  | some u => u | none => "~"
+def showORat : Option Rat → String
+  | some r => showRat r | none => "~"
+def showOVal : Option (Val Rat) → String
+  | some v => showVal v | none => "~"
+/-- any kind, state as observed (no conversion is run on it) -/
+def parseTPAny? (ws : List String) : Option (TP Rat) :=
+  match ws with
+  | [k, u, pu, pdt, sdt, fac, ini, v, vals] => do
+      let k ← parseKind? k; let v ← parseVal? v; let vals ← parseOVal? vals
+      let pdt ← parseORat? pdt; let sdt ← parseORat? sdt; let fac ← parseORat? fac; let ini ← parseBool? ini
+      some { kind := k, v := v, unit := parseUnit u, parentUnit := parseUnit pu, parentDt := pdt, selfDt := sdt,
+             factor := fac, values := vals, initialized := ini }
+  | _ => none
+
 def stepLine (_ : Unit) (line : String) : Unit × String :=
   ((), match words line with
   | ["number", which, u, dt, su, sdt, r, ru, rel] =>
@@ -90,6 +108,22 @@ def stepLine (_ : Unit) (line : String) : Unit × String :=
       (match parseORat? dt with | some dt => showR (ageIncrement (parseUnit u) dt) | none => "bad-op")
   | ["delivexp", u, dt] =>
       (match parseORat? dt with | some dt => showR (deliveryExponent Gen.deliveryDt (parseUnit u) dt) | none => "bad-op")
+  | ["decl", form, kind, v, du, pu, pdt] =>
+      (match parseForm? form, parseKind? kind, parseVal? v, parseORat? pdt with
+      | some f, some k, some v, some pdt =>
+          let alg := (k == .dur) || (k == .rate)
+          (match declareInit Gen.wrapLost f k v (parseUnit du) (parseUnit pu) pdt alg with
+          | .ok t => "ok " ++ showUnit t.unit ++ " " ++ showUnit t.parentUnit ++ " " ++ showORat t.parentDt ++ " " ++ showORat t.factor ++ " " ++ showOVal t.values
+          | .error e => showErr e)
+      | _, _, _, _ => "bad-op")
+  | ["shortcut", name] =>
+      (match shortcutOf Gen.shortcuts name with
+      | some (cls, unit) => "ok " ++ cls ++ " " ++ unit
+      | none => "E:Key")
+  | "pool" :: trans :: acq :: tp =>
+      (match parseRat? trans, parseRat? acq, parseTPAny? tp with
+      | some tr, some ac, some t => showV (poolProb Gen.poolBetaField t tr ac)
+      | _, _, _ => "bad-op")
   | _ => "bad-op")
 
 def main : IO Unit := mainLoop stepLine ()
